@@ -43,6 +43,8 @@ func VerifC16_ReadOnlyRejects() {
 			tx.Rollback()
 		}
 	}
+	// a refused request holds nothing back: the database lock is free and reads inside a transaction still work
+	vsym.Assert(vsym.Held(e.txManager.GetRWLock()) == 0, "a refused mutation left the database lock held")
 	// data unchanged
 	got, gerr := e.Get(K[0])
 	vsym.Assert(gerr == nil && vsym.EqBytes(got, v0), "data changed by a rejected mutation")
